@@ -93,6 +93,14 @@ ASSUME = ["timestamps are ranks in the specification; the device code only compa
           "non-dyadic quotients)"]
 
 
+@replayer("devices_trace")
+def replay_devices_trace(pid, v):
+    from p_pure import trace_check
+    ctx = vlib.Ctx(pid + "_replay", "quick", 1)
+    ok = trace_check(ctx, "DevicesTrace", build_harness(["devices"]), "devices", v["record_args"], "terminals", "terminal reads", "devices_trace")
+    return None if ok else ctx.violations[0][2]
+
+
 @register("C08")
 def c08(ctx):
     q = ctx.tier == "quick"
@@ -146,6 +154,10 @@ def c09(ctx):
         jobs.append(("reach%d" % k, dev_cfg("match", [], 1, nt=k, initany=False, emit=False), 1, None))
         jobs.append(("edges%d" % k, dev_cfg("match", [], 1, nt=k, initany=True), 1, None))
     run_devices(ctx, jobs, 1 if q else 4)
+    # impl -> spec: random operation sequences on 6 real terminals with arbitrary values and timestamps; TLC infers the (private) links
+    from p_pure import trace_check
+    trace_check(ctx, "DevicesTrace", build_harness(["devices"]), "devices", [ctx.seed, 25 if q else 400], "terminals",
+                "terminal reads after random connect / disconnect / set operations", "devices_trace", timeout=1500)
     # borrow-level model of connect(): the repaired step order never panics and refines the atomic link algebra; the pinned (legacy)
     # order must reach the "already borrowed" panic, otherwise the model could not have found the defect (self-test)
     bcfg = lambda nt, legacy: cfg_text(constants={"NT": nt, "Legacy": legacy}, invariants=["NoPanic", "Matching"], properties=["RefinesAtomic"])
@@ -154,11 +166,17 @@ def c09(ctx):
     leg = run_tlc(ctx, "ConnectBorrow", bcfg(2, True), "borrow_legacy", 1)
     if not any("NoPanic is violated" in e for e in leg["errors"]):
         raise ToolError("ConnectBorrow with the legacy step order did not reach the panic: the borrow-level model is vacuous")
+    nob = vlib.run_tlapm(ctx, "TerminalLinksProof", ["TerminalLinks"])
+    ctx.notes.append("TLAPS: TerminalLinksProof.tla proves (%d obligations) that Unlink / ConnectL keep the links a symmetric partial matching, link the "
+                     "two terminals to each other, unlink the former partners and touch nothing else, for any number of terminals" % nob)
     ctx.notes.append("self-test: ConnectBorrow with Legacy = TRUE reaches the 'already borrowed' panic (the defect fixed by 9c8bcaa)")
     ctx.rule = ("Terminals 2..6: TLC explores the whole graph reachable from the empty matching by connect(i,j), i # j, and disconnect(i) "
                 "(invariant Matching, action property ConnectLaw), then emits every matching x every operation (and every pair of "
                 "operations) as a behaviour; terminal k holds state 2^k so the state read identifies the partner. For 2 and 3 terminals "
                 "every presence pattern / timestamp order of own states and commands is crossed with the operations. An operation that "
-                "panics is a mismatch. Non-trivial = connect on an already linked terminal or disconnect of a linked one.")
+                "panics is a mismatch. In the other direction random sequences of 50..200 connect / disconnect / set-state / set-command "
+                "operations on 6 real terminals with arbitrary finite values and i64 timestamps are recorded and validated by TLC against "
+                "DevicesTrace.tla, which infers the private link function with the same link algebra (TerminalLinks.tla). "
+                "Non-trivial = connect on an already linked terminal or disconnect of a linked one.")
     ctx.assumptions += ASSUME
     ctx.exhaustive = True
